@@ -331,7 +331,7 @@ spec:
             (token.kind == TokenKind::Eof) == (old(self).rem().len() == 0),
             old(self).rem().len() > 0 ==> token.len >= 1,                          // [C03] [C04]
             old(self).rem().len() == 0 ==> final(self).rem() == old(self).rem() && token.len == 0,
-before `let current = match self.bump() {`:
+enter:
         broadcast use {lemma_suffix_trans_b, lemma_suffix_len};
 before `let token_kind = match current {`:
         let ghost r1 = self.rem();
@@ -540,7 +540,7 @@ spec:
             forall|s: &str, off: int| #[trigger] old(self).on(s, off) ==> final(self).on(s, off)
                 && (r.is_some() ==> bnd(s, r.unwrap().span.s() - off) && bnd(s, r.unwrap().span.e() - off)
                     && (r.unwrap().kind == TokenKind::Escaped ==> bnd(s, r.unwrap().span.s() + 1 - off) && r.unwrap().span.s() + 1 <= r.unwrap().span.e() <= r.unwrap().span.s() + 5)),      // [C04]
-before `let t = self.cursor.advance_token();`:
+enter:
         broadcast use lemma_suffix_len;
 after `let t = self.cursor.advance_token();`:
         proof { if t.kind == TokenKind::Eof { assert(utf8len(old(self).cursor.rem()) == 0); } }
